@@ -132,19 +132,25 @@ def deep_merge_multi_update(dct, merge_dct):
     if merge_dct is None:
         merge_dct = {}
     for k, v in merge_dct.items():
-        if (k in dct and isinstance(dct[k], dict)
-                and isinstance(merge_dct[k], collections.abc.Mapping)):
+        if k in dct and isinstance(dct[k], dict) \
+                and MULTI_UPDATE_KEY in dct[k]:
+            # values are already collected for this key: one more
+            dct[k][MULTI_UPDATE_KEY].append(merge_dct[k])
+        elif (k in dct and isinstance(dct[k], dict)
+                and isinstance(merge_dct[k], collections.abc.Mapping)
+                and '_updater' not in dct[k]
+                and '_updater' not in merge_dct[k]):
             deep_merge_multi_update(dct[k], merge_dct[k])
         elif k in dct:
             # put values together in a list under '_multi_update' key
-            if isinstance(dct[k], dict) and MULTI_UPDATE_KEY in dct[k]:
-                dct[k]['_multi_update'].append(merge_dct[k])
-            else:
-                dct[k] = {
-                    '_multi_update': [
-                        dct[k], merge_dct[k]]}
+            # (an update that names its own updater is one value)
+            dct[k] = {
+                MULTI_UPDATE_KEY: [
+                    dct[k], merge_dct[k]]}
         else:
-            dct[k] = merge_dct[k]
+            # copy the dictionary structure: later merges into dct must
+            # not reach into merge_dct, which belongs to the caller
+            dct[k] = deep_copy_internal(merge_dct[k])
     return dct
 
 
